@@ -44,6 +44,19 @@ def main():
             with open(args.replay) as fh:
                 doc = json.load(fh)
             ok = mod.replay(ctx, doc)
+            if ok is None:
+                # no input-level replay for this kind of case: re-run the stream that produced it, with the
+                # recorded seed and tier, and look for a violation of the same oracle
+                ctx2 = common.Context(prop, doc.get("tier", "quick"), int(doc.get("seed", 0)))
+                try:
+                    mod.run(ctx2)
+                finally:
+                    ctx2.cleanup()
+                want = (doc.get("oracle") or {}).get("name")
+                again = [v for v in ctx2.violations if v is not None and (want is None or v.obligation == want)]
+                again += [k for k in ctx2.known_hits]
+                ok = not again
+                print("re-ran %s %s seed=%s: %d violation(s) of %s" % (prop, ctx2.tier, ctx2.seed, len(again), want))
             print("replay %s: %s" % (args.replay, "property holds on this input" if ok else "FAILS"))
             for v in ctx.violations:
                 if v is not None:
